@@ -20,6 +20,7 @@ TReset ==
     /\ registry' = <<>> /\ chan' = <<>> /\ one' = <<>> /\ held' = {}
     /\ pc' = [s \in Srcs |-> "idle"] /\ cur' = 0
     /\ guard' = [s \in Srcs |-> NoGuard]
+    /\ prepared' = [s \in Srcs |-> NoPrep]
     /\ last' = [ev |-> "init"]
 
 TNext ==
@@ -30,9 +31,12 @@ TNext ==
     \/ Is("drop_handle") /\ DropHandle(E.t)
     \/ Is("trig")
                   /\ IF E.unwind THEN UnwindTrigger(E.src) /\ guard[E.src] = E.v
+                     ELSE IF E.prepared THEN TriggerPrepared(E.src) /\ prepared[E.src] = E.v
                      ELSE IF E.sync THEN TriggerNoop(E.src, E.v, E.g) ELSE Trigger(E.src, E.v, E.g)
                   /\ last'.t = E.t
     \/ Is("poll") /\ Poll(E.src)
+    \/ Is("prep") /\ PrepareTrigger(E.src, E.v)
+    \/ Is("drop_prep") /\ DropPrepared(E.src)
     \/ Is("ret") /\ (Return(E.src) \/ UnwindReturn(E.src)) /\ last'.t = E.t /\ last'.prog = E.prog
     \/ Is("panicked") /\ (Panicked(E.src) \/ UnwindPanicked(E.src)) /\ last'.t = E.t
     \/ Is("poll_end") /\ PollEnd(E.src) /\ last'.prog = E.prog
